@@ -357,7 +357,7 @@ Theorem cursor_to_key_ok (c : chain) cur ge k : Forall (node_ok K V IDXNUM) c ->
   cur_ok c (snd (cursor_to_key K V cmp c cur ge k)).
 Proof.
   intros Hok Hu Hc. unfold cursor_to_key.
-  assert (Hfail : cur_ok c {| c_cn := c_cn cur; c_pos := c_pos cur; c_skip := 0; c_pend := c_pend cur |}) by exact Hc.
+  assert (Hfail : cur_ok c {| c_cn := c_cn cur; c_pos := c_pos cur; c_skip := c_skip cur; c_pend := c_pend cur |}) by exact Hc.
   destruct (lower_of K V cmp c k) as [[lid lrecs]|] eqn:El; [|exact Hfail].
   pose proof (lower_of_in K V cmp c k (lid, lrecs) El) as Hin.
   destruct (in_split_unique K V c lid lrecs Hin) as [pre [rest Hsp]].
@@ -367,7 +367,7 @@ Proof.
   assert (Hp : forall p, p < length lrecs ->
              cur_ok c (snd (match Cursor.load_node K V c lid with
                             | Some cc => (CROk, {| c_cn := Some cc; c_pos := p; c_skip := 0; c_pend := c_pend cur |})
-                            | None => (CRNotFound, {| c_cn := c_cn cur; c_pos := c_pos cur; c_skip := 0; c_pend := c_pend cur |}) end))).
+                            | None => (CRNotFound, {| c_cn := c_cn cur; c_pos := c_pos cur; c_skip := c_skip cur; c_pend := c_pend cur |}) end))).
   { intros p Hlt. rewrite Hl. cbn [snd]. apply cur_ok_copy. unfold copy_ok. cbn [cc_node cc_pnum]. split; [exact Hl|exact Hlt]. }
   destruct (found_at K V cmp lrecs k (pos K V cmp lrecs k)) eqn:Ef.
   - apply Hp. eapply found_lt. exact Ef.
